@@ -401,6 +401,10 @@ def conclude(prop, args, meta, shards, t0, replay):
                % (prop, args.tier, args.seed, counters.get("cases", 0), cov["evaluations"],
                   len(sigs), len(known_hit), len(new_keys), wall))
     print(summary)
+    if infra:
+        print("INFRA: %d child(ren) died outside any case (%s); their shards are incomplete:"
+              % (len(infra), infra[0]["key"]))
+        print(infra[0]["stderr"][-1500:])
     if new_keys:
         return 1
     if infra:
